@@ -41,6 +41,7 @@ class Ctx:
         self.step_budget = 200000
         self.bin_parse = {}        # (SymBin.id, type) -> parsed value cache
         self.diseq = []            # decided disequalities between string classes
+        self.case_variants = []    # pairs of distinct classes decided to be equal up to ASCII case (str::eq_ignore_ascii_case)
         self.sym_reduce = False
         self.stubs = {}            # callee last segment -> handler (spec-declared nondeterministic stubs)
 
@@ -292,6 +293,19 @@ class Ctx:
         if self.choose([True, True], f"{x.name}=={y.name}?") == 0:
             self._merge(x, y); return True
         self.diseq.append((x, y)); self.assume(x.rank != y.rank)
+        return False
+
+    def str_eq_nocase(self, a, b):
+        """str::eq_ignore_ascii_case: equal strings, or (a further fork) two distinct strings that differ only in ASCII case.
+        The relation is not closed under transitivity here (over-approximation: a spurious combination fails its native replay)."""
+        if isinstance(a, str) and isinstance(b, str): return a.lower() == b.lower()
+        if self.str_eq(a, b): return True
+        x, y = self.atom_of(a), self.atom_of(b)
+        if x.text is not None and y.text is not None: return x.text.lower() == y.text.lower()
+        for p, q in self.case_variants:
+            if {self.find(p), self.find(q)} == {self.find(x), self.find(y)}: return True
+        if self.choose([True, True], f"{x.name}~{y.name} (ASCII-case variant)?") == 0:
+            self.case_variants.append((x, y)); return True
         return False
 
     def _merge(self, x, y):
